@@ -134,9 +134,9 @@ def make_wrap(shadow, glob_variants):
     return wrap
 
 
-def make_xf(field_names, variant_names, rot, absolutize=True):
+def make_xf(field_names, variant_names, rot, absolutize=True, exact=False):
     def xf(t):
-        k = rot
+        k = 0 if exact else rot
         for vi, v in enumerate(t.variants):
             if variant_names and t.kind == 'enum':
                 v.name = variant_names[(rot + vi) % len(variant_names)]
@@ -300,6 +300,14 @@ def contexts(fields, upper, tier, seed):
            ('names-a', False, False, fa, None),
            ('names-b+shadow', True, False, fb, None),
            ('variants+glob', False, True, None, ['None', 'Some', 'Ok', 'Err', 'Ordering', 'Equal', 'Less', 'Greater', 'Option'] + vn[:6])]
+    # names closed under the binding patterns of the generated code: a field x next to fields called like the
+    # bindings the templates derive from x (format_ident! patterns harvested from /repo/src)
+    _, _, pats, _ = hostile_names()
+    for pi, pat in enumerate(pats):
+        one = pat.replace('{}', 'x')
+        two = pat.replace('{}', one)
+        others = [q.replace('{}', 'x') for q in pats if q != pat]
+        ctx.append((f'closed-under:{pat}', pi % 2 == 1, False, ['x', one, two] + others, None, True))
     if tier != 'quick':
         ctx.append(('names-a+shadow+glob', True, True, fa, ['Less', 'Equal', 'Greater', 'Some', 'None'] + vn[:4]))
         fr = list(fields)
@@ -315,12 +323,14 @@ def gen(tier, seed):
     tmpl = templates()
     ctxs = contexts(fields, upper, tier, seed)
     for ti, (name, mk) in enumerate(tmpl):
-        for ci, (tag, shadow, glob, fns, vns) in enumerate(ctxs):
+        for ci, ctx in enumerate(ctxs):
+            tag, shadow, glob, fns, vns = ctx[:5]
+            exact = len(ctx) > 5 and ctx[5]
             if tier == 'quick' and (ti + ci) % 2 == 1 and tag not in ('shadow',):
                 continue
             model.TYPE_WRAP = make_wrap(shadow, glob)
             try:
-                m = mk(f'm{n:04d}', f'{name} @ {tag}', make_xf(fns, vns, ti * 5 + ci))
+                m = mk(f'm{n:04d}', f'{name} @ {tag}', make_xf(fns, vns, ti * 5 + ci, exact=exact))
             finally:
                 model.TYPE_WRAP = None
             if m is None:
